@@ -438,6 +438,11 @@ def emit_lean(table, path, note):
                 ident, c['name'], '[' + ', '.join(map(str, mutexes)) + ']', ',\n'.join(xl)))
             out.append('')
             xcls_defs.append('x' + ident)
+        # the member names by field number, as DATA (used by RomeaProofs/Properties/C19Reports.lean to find `report_` and the
+        # threshold members by name instead of by a hand-copied number; the numbering depends on the order of first access)
+        out.append('/-- member names of `%s`, by field number -/' % ident)
+        out.append('def fields_%s : List String := [%s]' % (c['name'], ', '.join('"%s"' % n for n in names)))
+        out.append('')
     out.append('def xtable : List XClass := [%s]' % ', '.join(xcls_defs))
     out.append('def table : List Class := [%s]' % ', '.join(cls_defs))
     out.append('end Romea.Generated.C19')
